@@ -28,7 +28,9 @@ BaseFloats == { VFloat(F15), VFloat(<<128,0,0,0,0,0,0,0>>), VFloat(<<0,0,0,0,0,0
 Floats == BaseFloats \cup TabledFloats
 ExtraFloats == TabledFloats \ BaseFloats
 Atoms == { A(<<>>), A(<<97>>), A(<<111,107>>), A(<<195,169>>), A(<<226,130,172>>), A(<<240,159,152,128>>),
-           A(<<195,191,97>>), A(<<195,131,194,169>>), A(<<195,130,194,181,120>>), A(Rep(97, 255)), A(Rep(97, 256)), A(Rep(98, 127) \o <<195,169>>) }
+           A(<<195,191,97>>), A(<<195,131,194,169>>), A(<<195,130,194,181,120>>), A(Rep(97, 255)), A(Rep(97, 256)), A(Rep(98, 127) \o <<195,169>>),
+           \* two-byte characters: 254 / 256 / 400 bytes but only 127 / 128 / 200 characters (lengths and tag choice go by bytes)
+           A([j \in 1..254 |-> IF j % 2 = 1 THEN 195 ELSE 169]), A([j \in 1..256 |-> IF j % 2 = 1 THEN 195 ELSE 169]), A([j \in 1..400 |-> IF j % 2 = 1 THEN 195 ELSE 169]) }
           \cup (IF Heavy THEN {A(Rep(97, 65535))} ELSE {A(Rep(97, 1000))})
 Bins == { VBin(<<>>), VBin(<<1,2,3>>), VBin(Rep(7, 40)), VBin(<<104,105>>), VBin(Rep(0, 300)), VBits(<<1,128>>, 1), VBits(<<254>>, 7),
           VBits(<<255,224>>, 3), VBits(<<1,2,240>>, 4), VBits(<<128>>, 1), VBits(<<192>>, 2), VBits(<<248>>, 5), VBits(<<252>>, 6) }
